@@ -99,7 +99,11 @@ def gen_arms(rng, T):
         elif r < 0.7:
             arms.append(("type", "Str" if strs else "Bool" if bools else "Int" if T[0] == "Int" else rng.choice(["Nat", "Int"])))
         else:
-            covered = {v for v in dom if any(matches(a, v) for a in arms)}
+            # sometimes complete the match as if open interval ends were included: the result misses exactly the end points,
+            # so a correct checker must reject it (declined) and an accepted one has a value without an arm
+            sloppy = rng.random() < 0.35
+            closed = lambda a: (a[0], a[1], a[2], "..") if a[0] == "interval" else a
+            covered = {v for v in dom if any(matches(closed(a) if sloppy else a, v) for a in arms)}
             for v in dom:
                 if v not in covered and len(dom) <= 8:
                     arms.append(("lit", v))
